@@ -447,6 +447,19 @@ impl H {
                 })();
                 r.map(|s| (s, None)).map_err(|e| (e, String::new()))
             }
+            ["repoprobe", ca] => {
+                // the operator asks the CA to move to a publication server nobody listens at, with the check of the new
+                // server switched on: the probe (a list query) fails, the CA keeps its repository, the failure is recorded
+                let r = (|| -> Result<String, Error> {
+                    let c = cm.get_ca(&h(ca))?;
+                    let mut contact = c.repository_contact()?.clone();
+                    contact.server_info.service_uri = idexchange::ServiceUri::from_str(&format!("https://127.0.0.1:1/rfc8181/{ca}/"))
+                        .map_err(|_| Error::custom("probe uri"))?;
+                    cm.update_repo(h(ca), contact, true, &actor, &krill)?;
+                    Ok("ok".into())
+                })();
+                r.map(|s| (s, None)).map_err(|e| (e, String::new()))
+            }
             ["repoconfuse", ca, other] => {
                 let r = (|| -> Result<String, Error> {
                     let resp = krill.repo_manager().repository_response(&h(other).convert(), krill.runtime())?;
